@@ -27,6 +27,7 @@ type C14Case struct {
 	Seed     uint64  `json:"seed"`
 	DrawMain bool    `json:"drawmain,omitempty"`
 	Late     int     `json:"late,omitempty"` // a goroutine that registers this many cleanups while the cleanups of the test case are running
+	LateCtx  bool    `json:"latectx,omitempty"` // ... and asks for the context then: the property function has returned, so it must be a cancelled one
 }
 
 type c14 struct{}
@@ -67,6 +68,7 @@ func (c14) Gen(dt *drv.T, c *Ctx) any {
 	cs.DrawMain = drv.Bool().Draw(dt, "drawmain")
 	if chance(dt, "late", 35) {
 		cs.Late = drv.IntRange(1, 40).Draw(dt, "nlate")
+		cs.LateCtx = drv.Bool().Draw(dt, "latectx")
 	}
 	return cs
 }
@@ -78,6 +80,7 @@ type c14Inv struct {
 	ctxs       [][]context.Context // per goroutine (index len(Gs) = main)
 	live       [][]bool
 	failedLie  int32 // Failed() returned false right after the goroutine's own Error/Errorf/Fail
+	lateLive   int32 // a context obtained while the cleanups were running was not cancelled
 }
 
 func (iv *c14Inv) validate() *Violation {
@@ -99,6 +102,9 @@ func (iv *c14Inv) validate() *Violation {
 				return violf("C14:context-not-unique", "goroutines observed different contexts within one invocation")
 			}
 		}
+	}
+	if atomic.LoadInt32(&iv.lateLive) > 0 {
+		return violf("C14:context-live-after-return", "a goroutine that called T.Context() while the cleanups of the test case were running got a context that is not cancelled")
 	}
 	if atomic.LoadInt32(&iv.failedLie) > 0 {
 		return violf("C14:failed-false-after-error", "Failed() returned false right after the same goroutine called Error/Errorf/Fail")
@@ -191,6 +197,11 @@ func (c14) Run(c *Ctx, csAny any) Outcome {
 			go func() {
 				defer close(lateDone)
 				<-released // the cleanups of this test case have started to run
+				if cs.LateCtx {
+					if cx := t.Context(); cx.Err() == nil {
+						atomic.StoreInt32(&iv.lateLive, 1)
+					}
+				}
 				for i := 0; i < cs.Late; i++ {
 					id := atomic.AddInt32(&iv.registered, 1) - 1
 					t.Cleanup(func() { atomic.AddInt32(&iv.runs[id], 1) })
